@@ -7,3 +7,4 @@
 #include "cmd_listing.inc"
 #include "cmd_tf.inc"
 #include "cmd_dual.inc"
+#include "cmd_tapbranch.inc"
